@@ -11,6 +11,36 @@ pub fn apply(region: &[u8], d: &Value) -> Vec<u8> {
         "set16le" => { if off + 1 < b.len() { b[off] = v as u8; b[off + 1] = (v >> 8) as u8; } }
         "set16be" => { if off + 1 < b.len() { b[off] = (v >> 8) as u8; b[off + 1] = v as u8; } }
         "set32le" => { if off + 3 < b.len() { if let Some(x) = d.get("b").and_then(|x| x.as_array()) { for k in 0..4 { b[off + k] = x[k].as_u64().unwrap_or(0) as u8; } } } }
+        // the length octets of the idx-th TLV of a DER structure (pre-order walk, constructed elements entered) replaced by
+        // `bytes`: another length form / another value at any nesting depth
+        "derlen" => {
+            fn walk(b: &[u8], mut pos: usize, end: usize, out: &mut Vec<(usize, usize)>, depth: usize) {
+                while pos + 2 <= end && depth < 16 {
+                    let constructed = b[pos] & 0x20 != 0;
+                    let lpos = pos + 1;
+                    let first = b[lpos] as usize;
+                    let (nlen, len) = if first < 0x80 { (1, first) } else {
+                        let k = first & 0x7f;
+                        if k == 0 || k > 4 || lpos + 1 + k > end { return; }
+                        let mut l = 0usize; for i in 0..k { l = (l << 8) | b[lpos + 1 + i] as usize; }
+                        (1 + k, l)
+                    };
+                    out.push((lpos, nlen));
+                    let start = lpos + nlen;
+                    if start + len > end { return; }
+                    if constructed { walk(b, start, start + len, out, depth + 1); }
+                    pos = start + len;
+                }
+            }
+            let mut fields = Vec::new();
+            walk(&b, 0, b.len(), &mut fields, 0);
+            if !fields.is_empty() {
+                let idx = d.get("idx").and_then(|x| x.as_u64()).unwrap_or(0) as usize % fields.len();
+                let (at, del) = fields[idx];
+                let ins: Vec<u8> = d.get("bytes").and_then(|x| x.as_array()).map(|a| a.iter().map(|y| y.as_u64().unwrap_or(0) as u8).collect()).unwrap_or_default();
+                b.splice(at..at + del, ins);
+            }
+        }
         // replace `del` bytes at `at` by `bytes` (re-encoding of a length field in another form)
         "splice" => {
             let at = (d.get("at").and_then(|x| x.as_u64()).unwrap_or(0) as usize).min(b.len());
